@@ -29,6 +29,9 @@ THEOREMS = [
     "Lineno.reported_line_correct_rst_error_partial", "Lineno.reported_line_rst_error_plus_one",
     "Lineno.reported_line_correct_rst_error_counterexample", "Lineno.reported_line_correct_counterexample",
     "Lineno.shift", "Lineno.report_shift",
+    "Lineno.report_invariant_under_move", "Lineno.report_by_current_module_wrong",
+    "Lineno.consolidated_field_line_correct", "Lineno.reported_line_correct_consolidated_partial",
+    "Lineno.classifier_xref_on_first_line", "Lineno.classifier_xref_counterexample",
     "Lineno.inherited_report_in_source", "Lineno.inherited_report_independent",
     "Lineno.inherited_field_line_correct_partial", "Lineno.report_on_inheriting_object_wrong",
     "Lineno.converted_formats_in_range_partial", "Lineno.converted_formats_in_range_counterexample",
@@ -129,7 +132,7 @@ def plant(rng, fmt: str, cls: str, name: str, line: str) -> str:
 
 
 def gen_blocks(rng, fmt: str, owner: str, names: Names, raw: bool, opening: bool) -> List[Dict[str, Any]]:
-    """blocks = [{'lines': [...], 'constructs': [(cls, j, name)]}]; fields last"""
+    """blocks = [{'lines': [...], 'constructs': [(cls, j, name[, offset of the list entry in the block])]}]; fields last"""
     blocks: List[Dict[str, Any]] = []
     nbody = rng.randint(1, 3)
     can_param = owner in ("class", "function", "method")
@@ -193,6 +196,8 @@ def gen_blocks(rng, fmt: str, owner: str, names: Names, raw: bool, opening: bool
                 cons.append((cls, j, nm))
             lines = [head + body[0]] + ["    " + l for l in body[1:]]
             blocks.append({"lines": lines, "constructs": cons, "kind": "field"})
+        if fmt == "r" and rng.random() < 0.4:
+            blocks.append(consolidated_block(rng, owner, names, raw, density))
     elif can_param and rng.random() < 0.8:
         # google / numpy parameter section with parameters that do not exist
         ps = [names.new("zp") for _ in range(rng.randint(1, 4))]
@@ -205,6 +210,58 @@ def gen_blocks(rng, fmt: str, owner: str, names: Names, raw: bool, opening: bool
                 lines += ["%s%s" % (p, " : int" if typed else ""), "    " + sentence(rng, raw)]
         blocks.append({"lines": lines, "constructs": [("P", 0, p) for p in ps], "kind": "section"})
     return blocks
+
+
+def consolidated_block(rng, owner: str, names: Names, raw: bool, density: float) -> Dict[str, Any]:
+    """reStructuredText consolidated field (restructuredtext.CONSOLIDATED_FIELDS): one tag, then a bullet list or a
+    definition list with one entry per name. Constructs carry the entry's offset inside the block (4th element):
+    B / D = entry documenting a parameter that does not exist (bullet / definition list), T = cross-reference in a
+    definition-list classifier, X / E inside the entry's text."""
+    if owner in ("function", "method"):
+        tag = rng.choice(["Parameters", "Parameters", "Arguments", "Exceptions", "Keywords"])
+    elif owner == "class":
+        tag = rng.choice(["Parameters", "IVariables", "CVariables", "Variables"])
+    else:
+        tag = rng.choice(["Variables", "Exceptions"]) if owner == "module" else "Exceptions"
+    deflist = tag not in ("Exceptions", "Keywords") and rng.random() < 0.5      # CONSOLIDATED_DEFLIST_FIELDS
+    param = tag in ("Parameters", "Arguments")
+    lines = [":%s:" % tag]
+    cons: List[Any] = []
+    for _ in range(rng.randint(1, 3)):
+        nm = names.new("zp") if param else (names.new("zv") if tag != "Exceptions" else rng.choice(["ValueError", "KeyError"]))
+        sub = len(lines)
+        n = rng.randint(1, 2)
+        body = [sentence(rng, raw) for _ in range(n)]
+        planted = None
+        if rng.random() < density * 0.7:
+            j = rng.randrange(n)
+            cls = rng.choice("XXE")
+            x = names.new() if cls == "X" else ""
+            body[j] = plant(rng, "r", cls, x, body[j])
+            planted = (cls, j, x)
+        if deflist:
+            classifier = ""
+            if rng.random() < 0.6:
+                if rng.random() < 0.5:
+                    t = names.new("zt")
+                    classifier = " : `%s`" % t
+                    cons.append(("T", 0, t, sub))
+                else:
+                    classifier = " : int"
+            lines.append("  %s%s" % (nm, classifier))
+            lines += ["    " + l for l in body]
+            if param:
+                cons.append(("D", 0, nm, sub))
+            if planted:                       # the definition is a paragraph of its own, one line below the term
+                cons.append((planted[0], planted[1], planted[2], sub + 1))
+        else:
+            lines.append("  - `%s`: %s" % (nm, body[0]))
+            lines += ["    " + l for l in body[1:]]
+            if param:
+                cons.append(("B", 0, nm, sub))
+            if planted:
+                cons.append((planted[0], planted[1], planted[2], sub))
+    return {"lines": lines, "constructs": cons, "kind": "consolidated"}
 
 
 def gen_layout(rng, cell: Tuple[bool, int, bool]) -> Dict[str, Any]:
@@ -460,14 +517,25 @@ def run_many(jobs: List[Tuple[Any, str, bool, List[str]]], workers: int = 14) ->
 
 # --------------------------------------------------------------------------- evaluation of one run
 
-def expected_reports(doc: Dict[str, Any], offset: int) -> List[Tuple[str, str, int, int]]:
-    """planted truth: (cls, name, first physical line of the block, physical line of the construct)"""
-    res = []
-    base = doc["str_lineno"] + offset
+KIND = {"B": "P", "D": "P", "T": "X"}      # planted class -> kind of the message it produces
+
+
+def cons_of(doc: Dict[str, Any]):
+    """planted constructs as (class, raw line of the first line of the block / list entry, j, name)"""
     for b, st in zip(doc["blocks"], doc["starts"]):
-        for cls, j, nm in b["constructs"]:
-            res.append((cls, nm, base + st, base + st + j))
-    return res
+        for c in b["constructs"]:
+            yield c[0], st + (c[3] if len(c) > 3 else 0), c[1], c[2]
+
+
+def cons_tokens(doc: Dict[str, Any]) -> str:
+    return " ".join("%s:%d:%d" % (cls, raw, j) for cls, raw, j, _ in cons_of(doc))
+
+
+def expected_reports(doc: Dict[str, Any], offset: int) -> List[Tuple[str, str, int, int, str]]:
+    """planted truth: (message kind, name, first physical line of the paragraph / item / field, physical line of
+    the construct, planted class)"""
+    base = doc["str_lineno"] + offset
+    return [(KIND.get(cls, cls), nm, base + raw, base + raw + j, cls) for cls, raw, j, nm in cons_of(doc)]
 
 
 def report_entries(res: Dict[str, Any]) -> List[Dict[str, Any]]:
@@ -553,8 +621,10 @@ def run(ctx: Ctx) -> None:
             jobs.append((src, mod["fmt"], wae, names))
             meta.append((mi, off, wae))
     inh_pk, inh_jobs = inherited_jobs(ctx)
-    allres = run_many(jobs + inh_jobs)          # one pool for both kinds of run
-    results, inh_results = allres[:len(jobs)], allres[len(jobs):]
+    rex_pk, rex_jobs = reexport_jobs(ctx)
+    allres = run_many(jobs + inh_jobs + rex_jobs)          # one pool for all kinds of run
+    results, inh_results = allres[:len(jobs)], allres[len(jobs):len(jobs) + len(inh_jobs)]
+    rex_results = allres[len(jobs) + len(inh_jobs):]
 
     lit_req, lit_impl, lit_pay = [], [], []
     doc_req, doc_impl, doc_pay = [], [], []
@@ -621,11 +691,7 @@ def run(ctx: Ctx) -> None:
             span = (sl, sl + doc["value"].count("\n"))
             if fmt in "er":
                 # stream: which constructs are reported, and where
-                cons = []
-                for b, st in zip(doc["blocks"], doc["starts"]):
-                    for cls, j, nm in b["constructs"]:
-                        cons.append("%s:%d:%d" % (cls, st, j))
-                doc_req.append("lineno doc %s %d %d %d %s %s" % (fmt, o["ismod"], o["ln"], sl, enc(doc["value"]), " ".join(cons)))
+                doc_req.append("lineno doc %s %d %d %d %s %s" % (fmt, o["ismod"], o["ln"], sl, enc(doc["value"]), cons_tokens(doc)))
                 ncl = len(o["doc"].split("\n")) if o["doc"] else 0
                 # duplicates (summary + body) collapse: the contract is the set of (line, kind, name)
                 uniq = sorted({(e["line"], e["kind"], e["name"]) for e in mine})
@@ -672,6 +738,7 @@ def run(ctx: Ctx) -> None:
                 ctx.fail("shift:not-by-k", {"source": realise(mods[mi], o0), "docformat": FMTS[mods[mi]["fmt"]], "k": o1 - o0, "differs": diff},
                          f"moving the module down by {o1 - o0} lines does not move every reported line by {o1 - o0}: {diff}")
     stream_inherited(ctx, inh_pk, inh_jobs, inh_results)
+    stream_reexported(ctx, rex_pk, rex_jobs, rex_results)
     ctx.compare("literal", lit_req, lit_impl, lit_pay)
     ctx.compare("reports", doc_req, doc_impl, doc_pay)
     ctx.compare("report-arith", ar_req, ar_impl, ar_pay)
@@ -709,8 +776,9 @@ def expected_shift(doc) -> int:
 def oracle_er(ctx: Ctx, inp, fmt: str, doc, exp, uniq, span) -> None:
     """epytext / reStructuredText: every report names the first line of the block holding the problem
     (a reStructuredText cross-reference may instead name the line of the reference itself)"""
-    byname = {(c, n): (first, own) for c, n, first, own in exp if c != "E"}
-    err_lines = sorted(first for c, n, first, own in exp if c == "E")
+    byname = {(c, n): (first, own, pc) for c, n, first, own, pc in exp if c != "E"}
+    err_lines = sorted(first for c, n, first, own, pc in exp if c == "E")
+    text_start = span[0] + (doc["starts"][0] if doc["starts"] else 0)     # physical line of the first text line
     tag = "rst" if fmt == "r" else "epytext"
     shift = expected_shift(doc)
     where = f"{FMTS[fmt]} docstring of {doc['name']} (literal on lines {span[0]}-{span[1]})"
@@ -734,7 +802,11 @@ def oracle_er(ctx: Ctx, inp, fmt: str, doc, exp, uniq, span) -> None:
                          f"{where}: markup error reported on line {ln} but none was planted")
                 continue
             near = max([x for x in err_lines if x <= ln] or [min(err_lines)])
-            ctx.fail(signature("E", ln - near), {**inp, "object": doc["name"], "reported": ln, "planted_error_lines": err_lines},
+            # adjacent planted errors: prefer the planted line that explains the report by a known displacement
+            want = shift + (1 if fmt == "r" else 0)
+            if want and (ln - want) in err_lines:
+                near = ln - want
+            ctx.fail(signature("E", ln - near), {**inp, "object": doc["name"], "reported": ln, "planted_error_lines": err_lines, "problem": ["E", ""]},
                      f"{where}: markup error in the block starting on line {near} is reported on line {ln}")
         elif kind in ("X", "P", "U"):
             t = byname.get((kind, name))
@@ -742,11 +814,17 @@ def oracle_er(ctx: Ctx, inp, fmt: str, doc, exp, uniq, span) -> None:
                 ctx.fail(f"unplanted:{kind}", {**inp, "object": doc["name"], "reported": [ln, kind, name]},
                          f"{where}: report of a problem that was not planted: {kind} {name} on line {ln}")
                 continue
-            first, own = t
+            first, own, pc = t
             if ln == first or (fmt == "r" and kind == "X" and ln == own):
                 continue
             target = own if (fmt == "r" and kind == "X") else first
-            ctx.fail(signature(kind, ln - target), {**inp, "object": doc["name"], "reported": ln, "expected": target},
+            if pc == "T" and ln == text_start:      # offset 0: docstring_lineno itself
+                ctx.fail("line:rst-consolidated-classifier-xref:docstring-first-line",
+                         {**inp, "object": doc["name"], "reported": ln, "expected": target},
+                         f"{where}: cross-reference '{name}' in the classifier of the definition-list entry on line {first} "
+                         f"is reported on line {ln}, the first line of the docstring")
+                continue
+            ctx.fail(signature(kind, ln - target), {**inp, "object": doc["name"], "reported": ln, "expected": target, "problem": [kind, name]},
                      f"{where}: {kind} '{name}' planted in the block starting on line {first} is reported on line {ln}")
         else:
             ctx.fail("unplanted:other", {**inp, "object": doc["name"], "reported": [ln, kind, name]},
@@ -876,9 +954,8 @@ def stream_inherited(ctx: Ctx, pk, jobs, results) -> None:
             ctx.count("inherit:docstrings")
             ctx.count("inherit:owner:" + doc["owner"])
             # ---- correspondence: set of (file, line, class) over the whole family
-            cons = ["%s:%d:%d" % (cls, st, j) for b, st in zip(doc["blocks"], doc["starts"]) for cls, j, nm in b["constructs"]]
             inh = ",".join("%d.%d" % (FILE_IDS["p/" + x.split(".")[1] + ".py"], res["objs"][x]["ln"]) for x in doc["inheritors"])
-            reqs.append("lineno inherit %s 1 %d %d %s %s %s" % (fmt, res["objs"][doc["name"]]["ln"], sl, enc(doc["value"]), inh or "-", " ".join(cons)))
+            reqs.append("lineno inherit %s 1 %d %d %s %s %s" % (fmt, res["objs"][doc["name"]]["ln"], sl, enc(doc["value"]), inh or "-", cons_tokens(doc)))
             impls.append(" ".join(sorted({"%s:%s:%s" % (FILE_IDS.get(e["path"], 9), e["line"], e["kind"]) for e in mine})))
             pay.append({**inp, "object": doc["name"], "inheritors": doc["inheritors"]})
             # ---- direct oracle
@@ -898,20 +975,130 @@ def stream_inherited(ctx: Ctx, pk, jobs, results) -> None:
             oracle_er(ctx, {**inp, "source": p["files"]["base.py"]}, fmt, doc, exp, uniq, span)
             # each planted problem is reported in the docstring's own file (epytext: a fatal markup error
             # makes pydoctor fall back to plain text, only the errors are reported then)
-            fatal = fmt == "e" and any(c == "E" for c, _, _, _ in exp)
+            fatal = fmt == "e" and any(c == "E" for c, _, _, _, _ in exp)
             got = {(k, nm) for _, k, nm in uniq}
             nerr = sum(1 for _, k, _ in uniq if k == "E")
-            for cls, nm, first, own in exp:
+            for cls, nm, first, own, _pc in exp:
                 if cls == "E":
                     continue
                 if not fatal and (cls, nm) not in got:
                     ctx.fail("inherited-docstring:planted-problem-not-reported-in-its-file:" + cls,
                              {**inp, "object": doc["name"], "planted": [cls, nm, first]},
                              f"{where}: {cls} '{nm}' planted on line {first} is not reported in p/base.py")
-            if nerr < len({first for c, _, first, _ in exp if c == "E"}):
+            if nerr < len({first for c, _, first, _, _ in exp if c == "E"}):
                 ctx.fail("inherited-docstring:planted-problem-not-reported-in-its-file:E",
                          {**inp, "object": doc["name"]}, f"{where}: a planted markup error is not reported in p/base.py")
     ctx.compare("inherited", reqs, impls, pay)
+
+
+# --------------------------------------------------------------------------- re-exported (moved) objects
+
+REEXPORT_FILES = {"p/_impl.py": 1, "p/__init__.py": 2, "p/sib.py": 3}
+
+
+def gen_reexport_package(rng, fmt: str) -> Dict[str, Any]:
+    """package p: everything is written in p/_impl.py (problems planted there); p/__init__.py and p/sib.py re-export
+    some of the top-level names through __all__, plain or renamed, which makes pydoctor move the objects."""
+    cells = layout_cells()
+    plan = [(rng.choice(["class", "function", "method", "attribute"]), rng.choice(cells), 0) for _ in range(rng.randint(2, 5))]
+    if rng.random() < 0.3:
+        plan.insert(0, ("module", rng.choice(cells), 0))
+    mod = gen_module(rng, fmt, plan)
+    tops: List[str] = []
+    for d in mod["docs"]:
+        parts = d["name"].split(".")
+        if len(parts) > 1 and parts[1] not in tops:
+            tops.append(parts[1])
+    dest: Dict[str, Tuple[str, str]] = {}       # top-level name -> (where, new name)
+    init_imp, init_all, sib_imp, sib_all = [], [], [], []
+    for t in tops:
+        w = rng.choice(["init", "init", "init-as", "sib", "sib-as", "stay"])
+        new = "R_" + t if w.endswith("-as") else t
+        dest[t] = (w, new)
+        imp = t if new == t else "%s as %s" % (t, new)
+        if w.startswith("init"):
+            init_imp.append(imp)
+            init_all.append(new)
+        elif w.startswith("sib"):
+            sib_imp.append(imp)
+            sib_all.append(new)
+    for d in mod["docs"]:
+        parts = d["name"].split(".")
+        if len(parts) == 1:
+            d["newname"], d["where"] = "p._impl", "stay"
+            continue
+        w, new = dest[parts[1]]
+        prefix = {"init": "p", "sib": "p.sib", "stay": "p._impl"}[w.split("-")[0]]
+        d["newname"] = ".".join([prefix, new] + parts[2:])
+        d["where"] = w
+    files = {
+        "__init__.py": ("from ._impl import %s\n" % ", ".join(init_imp) if init_imp else "") + "__all__ = %r\n" % (init_all,),
+        "sib.py": "# sibling module\n" + ("from p._impl import %s\n" % ", ".join(sib_imp) if sib_imp else "") + "__all__ = %r\n" % (sib_all,),
+        "_impl.py": realise(mod, 0),
+    }
+    return {"fmt": fmt, "files": files, "docs": mod["docs"], "mod": mod}
+
+
+def reexport_jobs(ctx: Ctx):
+    rng = ctx.rng
+    n = 120 if ctx.quick else 1200
+    pk = [gen_reexport_package(rng, "er"[i % 2]) for i in range(n)]
+    jobs = []
+    for p in pk:
+        check_against_ast(ctx, p["mod"], p["files"]["_impl.py"], 0)
+        jobs.append((p["files"], p["fmt"], rng.random() < 0.5, [d["newname"] for d in p["docs"]]))
+    return pk, jobs
+
+
+def stream_reexported(ctx: Ctx, pk, jobs, results) -> None:
+    """objects moved by an __all__ re-export: every report still names the file the docstring is written in"""
+    reqs, impls, pay = [], [], []
+    for p, job, res in zip(pk, jobs, results):
+        fmt = p["fmt"]
+        inp = {"files": p["files"], "docformat": FMTS[fmt], "warnings_as_errors": job[2], "docstring_file": "p/_impl.py"}
+        ctx.count("reexport:packages")
+        if not isinstance(res["rc"], int):
+            ctx.fail("run-aborted:" + str(res["rc"]).split(":")[0], inp, f"driver.main ended with {res['rc']}")
+            continue
+        entries = report_entries(res)
+        seen = sorted(m.group(1, 2) for m in (re.match(r"^(p/\w+\.py):(\d+|\?\?\?): ", l) for l in res["stdout"].split("\n")) if m)
+        if seen != sorted((e["path"], e["line"]) for e in entries):
+            ctx.disagree("stdout-vs-log", inp, str(sorted((e["path"], e["line"]) for e in entries))[:300], str(seen)[:300])
+        # a class docstring is parsed while its module is built, i.e. before the move: such reports are logged
+        # under the name the object had then (same object, same file)
+        for d in p["docs"]:
+            d["oldname"] = "p._impl" + d["name"][1:]
+        known = {d["newname"] for d in p["docs"]} | {d["oldname"] for d in p["docs"]}
+        for e in entries:
+            if e["obj"] not in known:
+                ctx.fail("unexpected-object:" + e["kind"], {**inp, "message": e["msg"][:200]}, "report on an object without planted docstring: " + e["msg"][:80])
+        for doc in p["docs"]:
+            o = res["objs"].get(doc["newname"])
+            if o is None:
+                ctx.disagree("object-missing", inp, doc["newname"], "not in system.allobjects")
+                continue
+            sl = doc["str_lineno"]
+            span = (sl, sl + doc["value"].count("\n"))
+            mine = [e for e in entries if e["obj"] in (doc["newname"], doc["oldname"])]
+            ctx.case("reexport|%s|%s|%s|%s" % (fmt, doc["owner"], doc["where"], enc(doc["value"])), True,
+                     {"docformat": FMTS[fmt], "object": doc["newname"], "written_as": doc["name"].replace("m", "p._impl", 1), "files": p["files"]}
+                     if doc["where"] != "stay" and ctx.dist.get("reexport:moved", 0) < 1 else None)
+            ctx.count("reexport:" + doc["where"])
+            if doc["where"] != "stay":
+                ctx.count("reexport:moved")
+            cur = {"init": 2, "sib": 3, "stay": 1}[doc["where"].split("-")[0]]
+            reqs.append("lineno moved %s 1 %d %d %d %s %s" % (fmt, cur, o["ln"], sl, enc(doc["value"]), cons_tokens(doc)))
+            impls.append(" ".join(sorted({"%s:%s:%s" % (REEXPORT_FILES.get(e["path"], 9), e["line"], e["kind"]) for e in mine})))
+            pay.append({**inp, "object": doc["newname"]})
+            where = f"{FMTS[fmt]} docstring of {doc['newname']} written in p/_impl.py lines {span[0]}-{span[1]} ({doc['where']} re-export)"
+            for e in mine:
+                if e["path"] != "p/_impl.py":
+                    ctx.fail("file:reexported-object:reported-in-other-file",
+                             {**inp, "object": doc["newname"], "message": e["msg"][:200]},
+                             f"{where}: reported as {e['path']}:{e['line']}, not the file that contains it: {e['descr'][:60]}")
+            uniq = sorted({(e["line"], e["kind"], e["name"]) for e in mine if e["path"] == "p/_impl.py"})
+            oracle_er(ctx, {**inp, "source": p["files"]["_impl.py"]}, fmt, {**doc, "name": doc["newname"]}, expected_reports(doc, 0), uniq, span)
+    ctx.compare("reexported", reqs, impls, pay)
 
 
 # --------------------------------------------------------------------------- small exhaustive API streams
@@ -1054,7 +1241,7 @@ def replay(ctx: Ctx, obj) -> int:
         print("exit status:", res["rc"])
         bad = False
         for e in report_entries(res):
-            flag = "" if e["path"] == "p/base.py" else "   <-- file without any docstring"
+            flag = "" if e["path"] == inp.get("docstring_file", "p/base.py") else "   <-- not the file the docstring is written in"
             bad = bad or bool(flag)
             print("reported  : %s:%s on %s  %s %s%s" % (e["path"], e["line"], e["obj"], e["kind"], e["name"], flag))
         for k in ("object", "reported_on", "message", "planted"):
@@ -1080,7 +1267,10 @@ def replay(ctx: Ctx, obj) -> int:
         # does the recorded observation still occur on the current tree?
         still = None
         lines = [l for l, _ in stdout_reports(res["stdout"])]
-        if isinstance(inp.get("reported"), int):
+        if isinstance(inp.get("reported"), int) and "problem" in inp:
+            still = (str(inp["reported"]), "%s:%s" % tuple(inp["problem"])) in stdout_reports(res["stdout"]) \
+                and inp["reported"] not in inp.get("planted_error_lines", []) and inp["reported"] != inp.get("expected")
+        elif isinstance(inp.get("reported"), int):
             still = str(inp["reported"]) in lines and ("expected" not in inp or inp["reported"] != inp["expected"])
         elif isinstance(inp.get("reported"), str) and inp["reported"].startswith("m.py:"):
             still = inp["reported"][5:] in lines
